@@ -279,6 +279,133 @@ def isIdent (cs : List Char) : Bool :=
 /-- P̂ for the `unique-id()` clause: every result is a valid identifier and they are pairwise distinct. -/
 def uniqueIdsOk (ids : List (List Char)) : Bool := ids.all isIdent && decide ids.Nodup
 
+/-! ### how `unique-id()` draws its characters (string.rs:242-248)
+
+  `thread_rng().sample(Alphanumeric)` twelve times.  rand 0.8 `distributions/other.rs`
+  (`impl Distribution<u8> for Alphanumeric`): `loop { let var = rng.next_u32() >> (32 - 6);
+  if var < 62 { return GEN_ASCII_STR_CHARSET[var] } }` — a 6-bit word is drawn, words ≥ 62 are rejected.
+  The model takes the stream of 6-bit words as a parameter (the generator itself is outside the model). -/
+
+/-- `GEN_ASCII_STR_CHARSET` (rand 0.8 distributions/other.rs). -/
+def alnumCharset : List Char :=
+  "ABCDEFGHIJKLMNOPQRSTUVWXYZabcdefghijklmnopqrstuvwxyz0123456789".toList
+
+/-- One `rng.sample(Alphanumeric)`: consumes words until one is accepted. `none`: stream exhausted. -/
+def sampleAlnum : List Nat → Option (Char × List Nat)
+  | [] => none
+  | w :: ws =>
+    match alnumCharset[w]? with
+    | some c => some (c, ws)
+    | none => sampleAlnum ws
+
+/-- `.take(n)` of the sampling iterator. -/
+def sampleAlnums : Nat → List Nat → Option (List Char × List Nat)
+  | 0, ws => some ([], ws)
+  | n + 1, ws =>
+    match sampleAlnum ws with
+    | none => none
+    | some (c, ws') =>
+      match sampleAlnums n ws' with
+      | none => none
+      | some (cs, ws'') => some (c :: cs, ws'')
+
+/-- One call of `unique-id()` (string.rs:240-249): the id and the rest of the stream. -/
+def uniqueIdDraw (ws : List Nat) : Option (List Char × List Nat) :=
+  match sampleAlnums 12 ws with
+  | none => none
+  | some (cs, ws') => some (uniqueId cs, ws')
+
+/-- The ids of `n` calls within one compilation (the thread's generator is shared by all evaluation
+    contexts: `thread_rng()` is a thread-local handle, nothing is copied into closures). -/
+def uniqueIdDraws : Nat → List Nat → Option (List (List Char))
+  | 0, _ => some []
+  | n + 1, ws =>
+    match uniqueIdDraw ws with
+    | none => none
+    | some (id, ws') =>
+      match uniqueIdDraws n ws' with
+      | none => none
+      | some ids => some (id :: ids)
+
+/-- The id made from twelve ACCEPTED words (all `< 62`). -/
+def uniqueIdOfWords (v : List Nat) : List Char := uniqueId (v.filterMap (alnumCharset[·]?))
+
+/-- The shape every drawn id has: `id-` followed by exactly twelve characters of the charset
+    (tie: evaluated on the ids real grass prints). -/
+def isDrawShape (id : List Char) : Bool :=
+  id.take 3 == ['i', 'd', '-'] && (id.drop 3).length == 12 && (id.drop 3).all (fun c => alnumCharset.contains c)
+
+/-- Diagnostics for the check's report: position of the first result that is not an identifier. -/
+def firstInvalid (ids : List (List Char)) : Option Nat := ids.findIdx? (fun x => !isIdent x)
+
+/-- Diagnostics: position of the first result equal to an earlier one. -/
+def firstRepeated : List (List Char) → List (List Char) → Nat → Option Nat
+  | _, [], _ => none
+  | seen, x :: xs, i => if seen.contains x then some i else firstRepeated (x :: seen) xs (i + 1)
+
+/-! ### `random($limit)` (builtin/functions/math.rs:89-120)
+
+  A number is given as a decimal `mant / 10^scale` (what the check's generator writes).  Outside the
+  model: `assert_int` accepts values within 1e-11 of an integer (the generator writes none). -/
+
+/-- `10^s` as an integer. -/
+def pow10 (s : Nat) : Int := (10 : Int) ^ s
+
+inductive RandArg where
+  | absent                          -- no argument / `null` (math.rs:93)
+  | notNumber                       -- `assert_number_with_name` fails (math.rs:100)
+  | number (mant : Int) (scale : Nat)
+  deriving DecidableEq, Repr, Inhabited
+
+inductive RandClass where
+  | unit01                          -- `rng.gen_range(0.0..1.0)` (math.rs:96)
+  | exactly1                        -- `limit.is_one()` (math.rs:104)
+  | oneTo (n : Int)                 -- `rng.gen_range(0..limit_int) + 1` (math.rs:118)
+  | errNumber | errInt | errPositive
+  deriving DecidableEq, Repr, Inhabited
+
+/-- The argument validation of `random`, in the order of the code: number, integer, one, positive. -/
+def randomSpec : RandArg → RandClass
+  | .absent => .unit01
+  | .notNumber => .errNumber
+  | .number m s =>
+    if m % pow10 s ≠ 0 then .errInt
+    else
+      let n := m / pow10 s
+      if n = 1 then .exactly1 else if n ≤ 0 then .errPositive else .oneTo n
+
+/-- What the caller sees: a printed unitless decimal, or an error of some class. -/
+inductive RandObs where
+  | value (mant : Int) (scale : Nat)
+  | error (cls : String)
+  deriving DecidableEq, Repr, Inhabited
+
+/-- P̂ for `random`: the observation lies in the range the specification gives for the argument. -/
+def randomOk : RandClass → RandObs → Bool
+  | .unit01, .value m s => decide (0 ≤ m) && decide (m < pow10 s)
+  | .exactly1, .value m s => decide (m = pow10 s)
+  | .oneTo n, .value m s =>
+    decide (m % pow10 s = 0) && decide (1 ≤ m / pow10 s) && decide (m / pow10 s ≤ n)
+  | .errNumber, .error c => c == "number"
+  | .errInt, .error c => c == "int"
+  | .errPositive, .error c => c == "positive"
+  | _, _ => false
+
+/-- The result of the code for a sample `r` of `gen_range(0..n)` (integer limits) or a sample
+    `num / 10^scale` of `gen_range(0.0..1.0)`. -/
+def randomResult (a : RandArg) (r : Nat) (num : Nat) (scale : Nat) : RandObs :=
+  match randomSpec a with
+  | .unit01 => .value num scale
+  | .exactly1 => .value 1 0
+  | .oneTo _ => .value (r + 1) 0
+  | .errNumber => .error "number"
+  | .errInt => .error "int"
+  | .errPositive => .error "positive"
+
+def RandClass.name : RandClass → String
+  | .unit01 => "unit01" | .exactly1 => "exactly1" | .oneTo _ => "oneTo"
+  | .errNumber => "errNumber" | .errInt => "errInt" | .errPositive => "errPositive"
+
 /-! ### observations and P̂ -/
 
 /-- What a caller sees of one compilation: the CSS or the rendered error text (bytes as hex). -/
@@ -306,7 +433,51 @@ def natsOfTok (s : String) : Option (List Nat) :=
 def obsOfToks (kind hex : String) : Option Obs :=
   if kind == "css" then some (.css hex) else if kind == "err" then some (.err hex) else none
 
+def randArgOfTok (s : String) : Option RandArg :=
+  match s.splitOn ":" with
+  | ["absent"] => some .absent
+  | ["nan"] => some .notNumber
+  | ["num", m, sc] =>
+    match m.toInt?, sc.toNat? with
+    | some m, some sc => some (.number m sc)
+    | _, _ => none
+  | _ => none
+
+def randObsOfTok (s : String) : Option RandObs :=
+  match s.splitOn ":" with
+  | ["val", m, sc] =>
+    match m.toInt?, sc.toNat? with
+    | some m, some sc => some (.value m sc)
+    | _, _ => none
+  | ["err", c] => some (.error c)
+  | _ => none
+
+def optNatStr : Option Nat → String
+  | some n => toString n
+  | none => "-"
+
 def handle : List String → String
+  -- uidwhy <id,id,…>: P̂ unique-id clause + diagnostics: ok <P̂> <all valid> <pairwise distinct> <first invalid> <first repeated>
+  | ["uidwhy", ids] =>
+    match strsOfTok ids with
+    | some ids =>
+      let l := ids.map String.toList
+      "ok " ++ boolStr (uniqueIdsOk l) ++ " " ++ boolStr (l.all isIdent) ++ " " ++ boolStr (decide l.Nodup) ++ " "
+        ++ optNatStr (firstInvalid l) ++ " " ++ optNatStr (firstRepeated [] l 0) ++ " " ++ boolStr (l.all isDrawShape)
+    | none => "bad-op"
+  -- random <arg> <obs>: P̂ `randomOk (randomSpec arg) obs` + the class the model gives the argument
+  | ["random", a, o] =>
+    match randArgOfTok a, randObsOfTok o with
+    | some a, some o => "ok " ++ boolStr (randomOk (randomSpec a) o) ++ " " ++ (randomSpec a).name
+    | _, _ => "bad-op"
+  -- uiddraw <n> <words>: the ids `n` calls of unique-id() make from a stream of 6-bit words
+  | ["uiddraw", n, ws] =>
+    match n.toNat?, natsOfTok ws with
+    | some n, some ws =>
+      match uniqueIdDraws n ws with
+      | some ids => "ok " ++ tokOfStrs (ids.map String.ofList)
+      | none => "stuck"
+    | _, _ => "bad-op"
   -- keywords <byKey> <history> <callNames>: names in the order `keywords()` lists them
   | ["keywords", bk, hist, call] =>
     match parseBool? bk, strsOfTok hist, strsOfTok call with
